@@ -5,7 +5,7 @@ from ..expr import callee, call_args, peel, Keys
 from ..callgraph import fname
 from ..effects import var_refs, is_static_storage, extern_calls
 from ..state import entries
-from ..ptrnorm import PtrNorm, build_env
+from ..ptrnorm import PtrNorm, build_env, PtrFlow
 from ..facts import has_lower_bound
 from ..expr import int_type
 from . import loader
@@ -408,9 +408,10 @@ def _check_hint(ctx, k, u, f, L):
     env2 = dict(env)
     env2[ubvar] = ('ptr', base[1], {'U': 1})
     pf = PtrNorm(keys, env2)
+    flow = PtrFlow(g, keys, F.never_written, seed_calls=[(ub, ('ptr', base[1], {'U': 1}))])
     st_ok = False
     for (snode, sobj, sval) in _hint_stores(u, f):
-        v = pf.norm(sval)
+        v = flow.norm_at_ast(sval)
         ok = v is not None and v[0] == 'int' and v[2] == {'U': 1}
         st_ok = st_ok or ok
         ctx.check(ok, 'C14-hint', '(v) value stored in %s in %s' % (keys.key(sobj), fn), snode,
@@ -454,7 +455,7 @@ def _check_hint(ctx, k, u, f, L):
                             [keys.key(a2) for jj, a2 in enumerate(args) if jj != sink[2]] == sink[3]:
                         if any(y.get('kind') == 'DeclRefExpr' and (y.get('referencedDecl') or {}).get('id') == ubvar
                                for y in walk(args[sink[2]])):
-                            sel_f = pf.norm(args[sink[2]])
+                            sel_f = flow.norm_at_ast(args[sink[2]])
                             role_f = _role(x)
         same = sel_h is not None and sel_f is not None and sel_h[0] == sel_f[0] and sel_h[1] == sel_f[1] and \
             _subst(sel_h[2], Hk, 'U') == sel_f[2]
